@@ -46,6 +46,12 @@ static uint32_t fnv(const uint8_t *b, size_t n) {
   return h;
 }
 
+/* FA_LOG=<level> in the environment turns libcoap's logging on (debugging a replay) */
+static coap_log_t fa_loglevel(void) {
+  const char *e = getenv("FA_LOG");
+  return e ? (coap_log_t)atoi(e) : COAP_LOG_EMERG;
+}
+
 /* ------------------------------------------------------------------ the world */
 static struct {
   coap_context_t *srv, *cli;
@@ -54,7 +60,7 @@ static struct {
   coap_resource_t *r_small, *r_big, *r_up, *r_obs, *r_sep;
   int obs_value;
   /* client side observations */
-  int n_resp, n_nack, last_code, last_nack;
+  int n_resp, n_nack, last_code, last_nack, last_obs;
   size_t last_len;
   uint32_t last_hash;
   int resp_bad;            /* a delivered payload was not the expected one */
@@ -87,6 +93,10 @@ static coap_response_t on_resp(coap_session_t *s, const coap_pdu_t *sent, const 
   (void)s; (void)sent; (void)mid;
   W.n_resp++;
   W.last_code = coap_pdu_get_code(rcv);
+  {
+    coap_opt_iterator_t oi;
+    W.last_obs = coap_check_option(rcv, COAP_OPTION_OBSERVE, &oi) != NULL;
+  }
   coap_get_data_large(rcv, &len, &data, &off, &tot);
   W.last_len = len;
   W.last_hash = fnv(data, len);
@@ -310,7 +320,7 @@ static void sc_setup(void) {
    * tear-down */
   fa_armed = 1;
   coap_startup();
-  coap_set_log_level(COAP_LOG_EMERG);
+  coap_set_log_level(fa_loglevel());
   vn_prng_seed(11);
   int ok = world_up(COAP_BLOCK_USE_LIBCOAP | COAP_BLOCK_SINGLE_BODY);
   R("up=%d", ok);
@@ -346,7 +356,7 @@ static void simple_exchange(int type) {
 
 static void prologue(int block_mode) {
   coap_startup();
-  coap_set_log_level(COAP_LOG_EMERG);
+  coap_set_log_level(fa_loglevel());
   vn_prng_seed(11);
   if (!world_up(block_mode)) {
     R("bad=setup-failed-without-fault");
@@ -408,9 +418,11 @@ static void sc_block2(void) {
   pump(200000);
   R("resp=%d code=%d len=%zu h=%08x nack=%d", W.n_resp, W.last_code, W.last_len, W.last_hash,
     W.n_nack);
-  if (W.n_resp && W.last_code == COAP_RESPONSE_CODE_CONTENT &&
-      (W.last_len != BIG_LEN || W.last_hash != fnv(big_body, BIG_LEN)))
-    R("bad=wrong-body");
+  if (W.n_resp && W.last_code == COAP_RESPONSE_CODE_CONTENT) {
+    if (W.last_len < BIG_LEN) R("bad=partial-body-delivered");
+    else if (W.last_len != BIG_LEN || W.last_hash != fnv(big_body, BIG_LEN)) R("bad=corrupt-body");
+  }
+  if (W.n_resp > 1) R("bad=response-delivered-%d-times", W.n_resp);
   finish_with_canary();
   world_down();
 }
@@ -435,6 +447,8 @@ static void sc_block1(void) {
     R("bad=wrong-body-at-server");
   if (W.n_resp && W.last_code == COAP_RESPONSE_CODE_CHANGED && !W.n_put)
     R("bad=changed-without-handler");
+  if (W.n_resp > 1) R("bad=response-delivered-%d-times", W.n_resp);
+  if (W.n_put > 1) R("bad=request-delivered-%d-times", W.n_put);
   finish_with_canary();
   world_down();
 }
@@ -450,9 +464,11 @@ static void sc_observe(void) {
     p = NULL;
   }
   R("pdu=%d", p != NULL);
-  if (p) R("send=%d", send_tracked(W.cs, p) != COAP_INVALID_MID);
+  int sent_ok = 0;
+  if (p) R("send=%d", sent_ok = (send_tracked(W.cs, p) != COAP_INVALID_MID));
   pump(120000);
   R("reg resp=%d code=%d len=%zu", W.n_resp, W.last_code, W.last_len);
+  int registered = sent_ok && W.n_resp == 1 && W.last_code == COAP_RESPONSE_CODE_CONTENT && W.last_obs;
   for (int i = 1; i <= 3; i++) {
     int before = W.n_resp;
     W.obs_value = i;
@@ -470,15 +486,31 @@ static void sc_observe(void) {
   t.length = tl;
   t.s = tok;
   int before = W.n_resp;
+  W.last_code = 0;
   int c = coap_cancel_observe(W.cs, &t, COAP_MESSAGE_CON);
   pump(120000);
-  R("cancel=%d got=%d", c, W.n_resp - before);
+  R("cancel=%d got=%d code=%d", c, W.n_resp - before, W.last_code);
+  int cancelled = c && W.n_resp > before && W.last_code == COAP_RESPONSE_CODE_CONTENT;
+  if (registered && !cancelled) {
+    /* the cancellation failed visibly: repeat it with memory available */
+    int a = fa_armed;
+    fa_armed = 0;
+    before = W.n_resp;
+    W.last_code = 0;
+    int c2 = coap_cancel_observe(W.cs, &t, COAP_MESSAGE_CON);
+    pump(120000);
+    fa_armed = a;
+    R("recancel=%d", c2);
+    cancelled = c2 && W.n_resp > before && W.last_code == COAP_RESPONSE_CODE_CONTENT;
+  }
   /* after a successful cancel no further notification must arrive */
   before = W.n_resp;
   W.obs_value = 9;
   if (W.r_obs) coap_resource_notify_observers(W.r_obs, NULL);
   pump(120000);
   R("after=%d", W.n_resp - before);
+  if (cancelled && W.n_resp > before) R("bad=notified-after-successful-cancel");
+  if (registered && !cancelled && W.n_resp > before) R("bad=observation-cannot-be-cancelled");
   finish_with_canary();
   world_down();
 }
@@ -499,7 +531,7 @@ static void dump_optlist(coap_optlist_t *l) {
 static void sc_uri(void) {
   /* no network: URI text -> coap_uri_t -> option list -> PDU -> path/query strings */
   coap_startup();
-  coap_set_log_level(COAP_LOG_EMERG);
+  coap_set_log_level(fa_loglevel());
   vn_prng_seed(11);
   want_canary = 0;
   fa_armed = 1;
@@ -527,6 +559,8 @@ static void sc_uri(void) {
     R("add_optlist=%d", d);
     coap_string_t *path = coap_get_uri_path(p);
     coap_string_t *query = coap_get_query(p);
+    R("get_path=%d", path != NULL);
+    R("get_query=%d", query != NULL);
     R("path=%.*s", path ? (int)path->length : 1, path ? (const char *)path->s : "-");
     R("query=%.*s", query ? (int)query->length : 1, query ? (const char *)query->s : "-");
     coap_delete_string(path);
@@ -628,7 +662,6 @@ static void sc_teardown_busy(void) {
   if (p3) R("s3=%d", send_tracked(W.cs, p3) != COAP_INVALID_MID);
   coap_pdu_t *p4 = mk_req(W.cs, COAP_MESSAGE_CON, COAP_REQUEST_CODE_GET, "r", NULL, NULL);
   if (p4) R("s4=%d", send_tracked(W.cs, p4) != COAP_INVALID_MID);
-  R("resp=%d", W.n_resp);
   finish_with_canary();
   world_down();
 }
